@@ -1,5 +1,7 @@
 import Proofs.InterpReal
 import Proofs.InterpSpec
+import Proofs.InterpVocab
+import Proofs.InterpBSE
 /-!
 # C13 — Log-linear interpolation is the normalised weighted product of its inputs
 
@@ -133,6 +135,17 @@ theorem formula_spec (E : ℚ → F) (hE : IsExp E) (cs : Comps W) (V : List W) 
   intro v _
   rw [spec_eq_tool cs hu]
 
+/-- **Passes 1+2 refine the back-off recursion.**  The record written by `MergeProbabilities`
+(probability of the longest suffix present + the level `from` it was found at) with the back-offs
+charged by `Recurse::SameContext` gives: `Prob()` = the weighted back-off score in the full
+context (always), and — when every component is suffix closed — `LowerProb()` = the weighted
+back-off score in the shorter context, hence the code-shaped normaliser `ZincTool` is `Zinc`. -/
+theorem pass12_refines (E : ℚ → F) (cs : Comps W) (V : List W) :
+    (∀ c x, toolProb cs c x = usum cs c x) ∧
+    ((∀ p ∈ cs, SuffixClosed p.2) →
+      (∀ y c x, toolLower cs y c x = usum cs c x) ∧ (∀ c, ZincTool E cs V c = Zinc E cs V c)) :=
+  ⟨toolProb_eq_usum cs, fun hs => ⟨toolLower_eq_usum cs hs, zincTool_eq_zinc E cs V hs⟩⟩
+
 /-- **Termination, equal orders.**  If all components have the same order, every union n-gram
 below that order gets a back-off record: `ReunifyBackoff` cannot hit
 "Streams were not the same size during merging". -/
@@ -180,6 +193,73 @@ theorem termination_fails_mixed_orders :
   have := h witness hw
   rw [abort_witness] at this
   exact List.cons_ne_nil _ _ this
+
+/-- Suffix closure is *needed* for `LowerProb()`: a component with the trigram `a b x` but without
+the bigram `b x` (words 3 `a`, 4 `b`, 5 `x`; `b` has back-off −1/2).  The code charges nothing to
+the lower probability because the full n-gram was found, although the shorter context backs off. -/
+def notSuffixClosed : LM Nat :=
+  { order := 3, unk := 0,
+    entries := [⟨[], 0, -2, 0⟩, ⟨[], 3, -1, -1/4⟩, ⟨[], 4, -1, -1/2⟩, ⟨[], 5, -1, 0⟩,
+                ⟨[3], 4, -1/2, -1/8⟩, ⟨[3, 4], 5, -1/4, 0⟩] }
+
+theorem toolLower_needs_suffix_closure :
+    toolLower [(1, notSuffixClosed)] 3 [4] 5 = -1 ∧ usum [(1, notSuffixClosed)] [4] 5 = -3/2 := by
+  constructor <;> decide +kernel
+
+/-! ## Union vocabulary and renumbering -/
+
+/-- **Union vocabulary.**  The universal vocabulary lists every word of every component (and
+`<unk>`) exactly once and nothing else; the universal id of a local id denotes the same string,
+renumbering is injective on a component's vocabulary, and all components' `<unk>` coincide. -/
+theorem vocab_union (ms : List LocalLM) :
+    (unionVocab ms).Nodup ∧
+    (∀ s, s ∈ unionVocab ms ↔ s = "<unk>" ∨ ∃ m ∈ ms, s ∈ m.vocab) ∧
+    (∀ m ∈ ms, ∀ i (hi : i < m.vocab.length),
+      (unionVocab ms)[toUniv (unionVocab ms) m.vocab i]? = some m.vocab[i]) ∧
+    (∀ m ∈ ms, m.vocab.Nodup → ∀ i j, i < m.vocab.length → j < m.vocab.length →
+      toUniv (unionVocab ms) m.vocab i = toUniv (unionVocab ms) m.vocab j → i = j) ∧
+    (∀ m ∈ ms, m.vocab[0]? = some "<unk>" →
+      toUniv (unionVocab ms) m.vocab 0 = (unionVocab ms).idxOf "<unk>") :=
+  ⟨nodup_unionVocab ms, fun _ => mem_unionVocab, fun _ hm _ hi => unionVocab_toUniv hm hi,
+    fun _ hm hnd _ _ hi hj h => toUniv_inj hm hnd hi hj h, fun _ _ h0 => toUniv_unk _ h0⟩
+
+/-- **Union n-gram set, from the files.**  The n-grams written for components read from
+intermediate files (local ids + vocabularies) are exactly the renumbered n-grams of the
+components. -/
+theorem ngram_union_renumbered {F : Type} [Field F] (E : ℚ → F) (ms : List LocalLM) (ls : List ℚ)
+    (hl : ls.length = ms.length) (V : List Nat) (c : List Nat) (w : Nat) :
+    (c, w) ∈ (interpOut E (globalizeAll ms ls) V).map (fun e => (e.ctx, e.word)) ↔
+      ∃ m ∈ ms, ∃ e ∈ m.entries, e.ctx.map (toUniv (unionVocab ms) m.vocab) = c ∧
+        toUniv (unionVocab ms) m.vocab e.word = w := by
+  rw [(ngram_union E (globalizeAll ms ls) V).2 c w, mem_globalizeAll_entries ms ls hl]
+
+/-! ## `BoundedSequenceEncoding` (the `from` vector inside a pass-1 record) -/
+
+/-- **Round trip of the `from` encoding.**  For every vector of bounds (`unsigned char`) and every
+value vector strictly below its bounds — the contract under which `merge_probabilities.cc` calls it,
+`fromᵢ < min(order, orderᵢ)` — `Decode(Encode(v)) = v`; any number of entries, hence any number of
+64-bit words. -/
+theorem bse_roundtrip (bounds vs : List Nat) (hb : ∀ b ∈ bounds, b < 256)
+    (hv : BSE.Below bounds vs) : BSE.decode bounds (BSE.encode bounds vs) = vs :=
+  BSE.decode_encode bounds vs hb (BSE.fits_of_below bounds vs 0 hv)
+
+/-- **No shift by 64.**  The C++ `Encode`/`Decode` shift a `uint64_t` by `entry.shift`; that is
+defined behaviour iff every shift is < 64.  It holds whenever all bounds are ≥ 2 (all components
+and the record have order ≥ 2) and for unigram records (all bounds 1) … -/
+theorem bse_no_ub (bounds : List Nat) :
+    ((∀ b ∈ bounds, 2 ≤ b ∧ b < 256) → BSE.ubFree bounds = true) ∧
+    (∀ n, BSE.ubFree (List.replicate n 1) = true) :=
+  ⟨BSE.ubFree_of_two_le bounds, BSE.ubFree_replicate_one⟩
+
+/-- … but **fails** when a zero-width field (a component of order 1) follows a completely full
+word: 32 components of order ≥ 2 at n-gram order 2 (2 bits each) and one unigram model.  The model
+then asks for `<< 64`, which is undefined behaviour in the C++ (UBSan: "shift exponent 64"; benign
+on x86).  Replayed on the real header by the check (known finding / `repo_patches`). -/
+theorem bse_shift64_witness : BSE.ubFree (List.replicate 32 2 ++ [1]) = false := by decide
+
+/-- non-vacuity: 25 entries of width 3 bits cross a 64-bit word boundary -/
+example : BSE.Below (List.replicate 25 6) (List.replicate 25 5) := by decide
+example : BSE.byteLength (List.replicate 25 6) = 10 := by decide
 
 /-! ## Real numbers: the log-level statements -/
 section Real
@@ -264,6 +344,10 @@ example : ∀ p ∈ exCs, UnkClean p.2 := by
   rcases hp with rfl | rfl
   · exact ⟨by unfold UnkOnlyUnigram; decide, by decide +kernel, by unfold WordsKnown; decide⟩
   · exact ⟨by unfold UnkOnlyUnigram; decide, by decide +kernel, by unfold WordsKnown; decide⟩
+example : ∀ p ∈ exCs, SuffixClosed p.2 := by
+  intro p hp
+  simp only [exCs, List.mem_cons, List.not_mem_nil, or_false] at hp
+  rcases hp with rfl | rfl <;> (unfold SuffixClosed; decide)
 example : [0, 1, 2, 3, 4].filter (fun w => decide (w ≠ 1)) ≠ [] := by decide
 example : ([], 3) ∈ unionGrams exCs := by decide
 example : stuck exCs = [] := equal_orders_not_stuck exCs 2 (by decide)
